@@ -159,6 +159,23 @@ package fstree
 //@   property C12, C13, C15
 //@   ensures [success_only_after_rename] err == nil ==> tmpFileComplete() && renamedOK()
 
+// ---- C13 (generic writer): a write that failed does not leave its own temporary file behind.
+// The temporary names of an address are few (p#0..p#4, opened exclusively) and are cleaned
+// only at start-up: left-overs of failed writes would make later writes of the same address -
+// writes no fault affects any more - fail with "file exists". The one failure that must not
+// remove anything is EEXIST itself: that file belongs to a concurrent writer.
+//@ ghost field tmpRemoved(x int) bool
+//@ callrule c13_temporary_file_removed in (*genericWriter).writeAndRename
+//@   property C13
+//@   optional
+//@   callee os.RemoveAll, os.Remove
+//@   assigns tmpRemoved
+//@   defines tmpRemoved(0) == (old(tmpRemoved(0)) || a0 == tmpPath)
+//@ func (*genericWriter).writeAndRename
+//@   property C13
+//@   valid !tmpRemoved(0)
+//@   ensures [failed_write_leaves_no_temporary_file_of_its_own] err != nil && !errIs(err, syscall.EEXIST) ==> tmpRemoved(0)
+
 // ---- C11 (streamed range reads): the stream returned for a range of length ln > 0 is
 // built from an already buffered part of the payload followed by the rest of the file,
 // limited to what is still missing. Length accounting: buffered part + limit == ln, for
